@@ -260,6 +260,7 @@ type hstats struct {
 	cases                                              map[string]bool
 	viols                                              map[string]*hviol
 	samples                                            []any
+	panicSample                                        []*hviol
 }
 
 func (s *hstats) viol(key string, v *hviol) {
@@ -397,8 +398,11 @@ func (e *henv) runConfig(r *ev.Run, st *hstats, sim *hsenv.Sim, base polyenv.Dum
 			if obs.Panic != "" {
 				st.mu.Lock()
 				st.panics++
+				// the property does not state panic-freedom: counted and reported as an observation only
+				if len(st.panicSample) < 3 {
+					st.panicSample = append(st.panicSample, mk(path, "panic inside the withdrawal transaction", obs.Panic))
+				}
 				st.mu.Unlock()
-				st.viol("handler/panic-in-withdrawal", mk(path, "the withdrawal transaction panicked inside the contract", obs.Panic))
 				return
 			}
 			if !obs.OK {
@@ -537,6 +541,9 @@ func (e *henv) runConfig(r *ev.Run, st *hstats, sim *hsenv.Sim, base polyenv.Dum
 			shape := ""
 			if reported := int64(obs.Amount) + change; reported != int64(sum) {
 				shape = ":other"
+				if reported < int64(sum) {
+					shape = ":total-below-inputs"
+				}
 				var rest []uint64
 				for _, u := range ub {
 					if !seen[u.Op] {
@@ -704,6 +711,10 @@ func handlerLevel(r *ev.Run, v *vault) map[string]any {
 	note("handler:total-with-change", st.change)
 	for k, n := range st.failWhy {
 		note("handler:rejected:"+k, n)
+	}
+	note("handler:panic", st.panics)
+	if len(st.panicSample) > 0 {
+		r.Note("handler_panics_observed", st.panicSample)
 	}
 	for _, s := range st.samples {
 		r.Sample(s)
